@@ -89,8 +89,9 @@ MetaOfComment(c, dct) ==
                   val == IF sp = 0 THEN "" ELSE RStrip(SubSeq(seg, sp + 1, Len(seg)), PyWS)
               IN MetaOfComment(SubSeq(c, 1, p - 1), DictSet(dct, key, val))
 RECURSIVE PComments(_, _, _)
-\* returns <<index of first non-comment token, metadata>>
-PComments(t, i, dct) == IF Ty(t, i) = "COMMENT" THEN PComments(t, i + 1, MetaOfComment(t[i].text, dct)) ELSE <<i, dct>>
+\* returns <<index of first non-comment token, metadata>>; white space at the end of a comment line (which includes a
+\* CR left over from a CRLF terminator) is not part of the metadata
+PComments(t, i, dct) == IF Ty(t, i) = "COMMENT" THEN PComments(t, i + 1, MetaOfComment(RStrip(t[i].text, PyWS), dct)) ELSE <<i, dct>>
 
 \* parse one graph starting at token i:  [ok, i, tree] or an error
 ParseAt(t, i) ==
